@@ -208,7 +208,7 @@ a non-normal completion of the finally block overrides. -/
 def finPart (i : Nat) (rbc : Res) (rf : Unit → Res) : Res :=
   match rbc.1 with
   | .fatal => (.fatal, Ev.tryE i :: rbc.2)
-  | cc => ((match (rf ()).1 with | .normal _ => cc.updateEmpty 0 | c => c),
+  | cc => ((match (rf ()).1 with | .normal _ => cc | c => c).updateEmpty 0,   -- 14.15.3 step 4: UpdateEmpty(F, undefined)
            Ev.tryE i :: (rbc.2 ++ Ev.finE i :: (rf ()).2))
 
 /-- try / catch / finally (14.15.3).  `rb` body, `rc` catch clause, `rf` finally block. -/
